@@ -286,6 +286,11 @@ func evaluate(spec *propSpec, tier string, extra map[string][]byte) (obls []*Obl
 			}
 		}
 		for _, o := range c.r.Obls {
+			for _, p := range impliedProps[o.Rule] {
+				if !hasProp(o, p) {
+					o.Props = append(o.Props, p)
+				}
+			}
 			if spec.ID != "*" && !hasProp(o, spec.ID) {
 				continue
 			}
